@@ -10,7 +10,6 @@ import (
 	"os"
 	"path"
 	"path/filepath"
-	"regexp"
 	"sort"
 	"strconv"
 	"strings"
@@ -2352,11 +2351,8 @@ type parsedFormula struct {
 	block  *OfficeMathPara
 }
 
-// ommlPrefixPattern 找出OMML原文中使用的命名空间前缀
-var ommlPrefixPattern = regexp.MustCompile(`</?([A-Za-z_][\w.-]*):`)
-
 // readFormula 读取 m:oMath 元素的内部XML原文。写出时原文被放进本库自己的 m:oMath 元素里，
-// 那里只声明了 m 前缀（w 前缀由文档根元素声明），所以原文使用其他前缀时放弃读取。
+// 那里只声明了 m 前缀（w 前缀由文档根元素声明），所以原文使用既不是 m/w、也不由它自己声明的前缀时放弃读取。
 func (d *Document) readFormula(decoder *xml.Decoder, start *xml.StartElement) (*OfficeMath, error) {
 	var raw struct {
 		Inner string `xml:",innerxml"`
@@ -2364,12 +2360,9 @@ func (d *Document) readFormula(decoder *xml.Decoder, start *xml.StartElement) (*
 	if err := decoder.DecodeElement(&raw, start); err != nil {
 		return nil, WrapError("parse_formula", err)
 	}
-	for _, match := range ommlPrefixPattern.FindAllStringSubmatch(raw.Inner, -1) {
-		if match[1] != "m" && match[1] != "w" {
-			return nil, nil
-		}
-	}
-	if strings.Contains(raw.Inner, "xmlns") {
+	// 原文可以原样写回的条件与 AddMathFormula 接受一个片段的条件相同：片段自成一体，
+	// 使用的前缀要么是 m/w，要么由片段自己（在作用域内）声明
+	if !isWellFormedMathFragment(raw.Inner) {
 		return nil, nil
 	}
 	return &OfficeMath{Xmlns: "http://schemas.openxmlformats.org/officeDocument/2006/math", RawXML: raw.Inner}, nil
@@ -2434,13 +2427,7 @@ func (d *Document) parseParagraphWithFormula(decoder *xml.Decoder, startElement 
 				if err := decoder.DecodeElement(&para, &t); err != nil {
 					return nil, WrapError("parse_formula_paragraph", err)
 				}
-				usable := !strings.Contains(para.Math.Inner, "xmlns")
-				for _, match := range ommlPrefixPattern.FindAllStringSubmatch(para.Math.Inner, -1) {
-					if match[1] != "m" && match[1] != "w" {
-						usable = false
-					}
-				}
-				if usable {
+				if isWellFormedMathFragment(para.Math.Inner) { // 见 readFormula
 					formula.block = &OfficeMathPara{
 						Xmlns: "http://schemas.openxmlformats.org/officeDocument/2006/math",
 						Math:  &OfficeMath{Xmlns: "http://schemas.openxmlformats.org/officeDocument/2006/math", RawXML: para.Math.Inner},
